@@ -60,6 +60,13 @@ def generate(rng, tier, index):
                 s["kind"] = "mode"
                 s["mode_index"] = int(rng.integers(0, 2))
                 s.pop("radius", None)
+    # every scene also has one co-located field detector strictly inside the domain (the library records interior and
+    # edge-touching regions through different code paths) and one touching a face
+    shp = spec["shape"]
+    if all(n >= 3 for n in shp):
+        lo = [int(rng.integers(1, n - 1)) for n in shp]
+        hi = [int(rng.integers(l + 1, n)) for l, n in zip(lo, shp)]
+        spec["detectors"].append({"kind": "field", "name": "dint", "box": [[l, h] for l, h in zip(lo, hi)], "exact": True, "reduce": False, "components": ["Ex", "Ey", "Ez", "Hx", "Hy", "Hz"]})
     rp.add_dispersive_boxes(rng, spec, 0.3, per_axis=not [s for s in spec["sources"] if s["kind"] != "dipole"])
     return spec
 
